@@ -534,6 +534,31 @@ func runC02(r *Rand, tier string, o *Out) {
 			}
 		}
 	}
+	// an opaque value whose member is a value that holds a thousand values (a list / a map of them)
+	for _, n := range []int{999, 1001, 1300} {
+		num := func(k uint64) *tval { return &tval{kind: 'n', n: k} }
+		dyn := func(sig string, v *tval) *tval { return &tval{kind: 'm', dynT: parseSigT(sig), elems: []*tval{v}} }
+		l := &tval{kind: '['}
+		mp := &tval{kind: '{'}
+		for j := 0; j < n; j++ {
+			l.elems = append(l.elems, dyn("I", num(uint64(j))))
+			mp.elems = append(mp.elems, num(uint64(j)), dyn("I", num(uint64(j*3))))
+		}
+		for _, g := range []*gval{
+			{kind: "O", sig: parseSigT("(m)"), tv: &tval{kind: '(', elems: []*tval{dyn("[m]", l)}}},
+			{kind: "O", sig: parseSigT("(m)<Box,content>"), tv: &tval{kind: '(', elems: []*tval{dyn("{Im}", mp)}}},
+			{kind: "O", sig: parseSigT("{Im}"), tv: mp},
+		} {
+			enc := g.encode()
+			tail := r.Bytes(1 + r.Intn(3))
+			res := o.Do("P", "val.read "+hx(append(append([]byte{}, enc...), tail...)), true)
+			want := fmt.Sprintf("ok %s rest=%d re=%s", g.render(), len(tail), hx(enc))
+			o.Count("val:a-thousand-values-under-one-value")
+			if res != want {
+				o.Fail("dynamic value does not round-trip: many values under one nested value", fmt.Sprintf("val.read (%d values under %s) => %s…", n, g.sig.String(), tail2(res, 100)))
+			}
+		}
+	}
 	// several opaque values of one small signature whose only member is a dynamic value, side by side in one list:
 	// each keeps its own content (the nested values often have the same signature and other contents)
 	for i := 0; i < 60; i++ {
